@@ -46,6 +46,9 @@ struct DumpOpts
     // for declaration-block faults: only the declarations preceding the faulted one are dumped
     int mask_decl_templ{-2};  // -1 = globals, >=0 template index, -2 = off
     int keep_syms{0}, keep_vars{0}, keep_funs{0};
+    // for a faulted *local* declaration block: how much of the global declarations textually precedes it (-1 = all of
+    // them; variables declared in the <system> block follow every template)
+    int gkeep_syms{-1}, gkeep_vars{-1}, gkeep_funs{-1};
 };
 
 /** canonical dump of the whole document; never uses expression_t::str() */
